@@ -32,6 +32,7 @@ func init() {
 
 func main() {
 	r := common.Start("C20", "model_checking")
+	r.ColdStart(coldProbes())
 	parseAll(r)
 	roundTrip(r)
 	idGenerator(r)
